@@ -98,6 +98,32 @@ CHECKS = {
    design="4/C19"),
 }
 
+
+CHECKS["C04"] = dict(
+   technique="bounded whole-run model checking with a symbolic crash point and schedule over a simulated broker (CrossHair + z3)",
+   text=("The engine process is killed either between two scheduling steps or inside a handler after the k-th broker operation (k symbolic), restarted with the same instance id over the surviving broker state (unacked deliveries requeued with redelivered=True) and run to quiescence: every started execution must reach a terminal status, all terminal notifications agree, nothing stays unacknowledged; for between-handler crashes the outcome equals the crash-free one and no task is requested twice. "
+         "Corpus: Pass/Task chain, Wait, Parallel with a Task branch, Map with MaxConcurrency 1; two crashes in the thorough tier. One defect was repaired (fcd0ce1); the volatility of join results is a recorded known finding whose region is decided from the engine's state at the instant of the crash."),
+   note=S2NOTE + " Crash = BaseException from the broker op hook / kill between steps; the definition store survives, everything else in the process is lost. Outside: broker crashes, crashes inside the broker client library, crashes during start().",
+   design="4/C04")
+CHECKS["C13"] = dict(
+   technique="bounded symbolic execution (CrossHair + z3) of the real evaluate_payload_template against a reference evaluator written from the States Language, one condition per intrinsic x argument-shape class",
+   text=("79 conditions call the real evaluate_payload_template with templates whose member names are symbolic and with intrinsic invocation strings assembled from symbolic pieces (2-3 character strings over an alphabet with , ' \\ ( ) { } [ ] ^ -, unbounded integers by reference, every JSON type, nesting up to depth 4) and compare value, exception class (only IntrinsicFailure / path failures may escape) and non-modification of template, input and context with the reference. "
+         "Ten genuine defects were repaired (4e44408 ... 92cec11); the tokeniser's escape handling (D2) and the documented array-item extension (D12) are recorded known findings with exact regions."),
+   note="Trusted: vf/ref/intrinsics.py, hashlib/base64/json.loads, CrossHair's model of randrange; set() restored to the real builtin (CrossHair's insertion-ordered model hides hash-order dependence). Outside: Format's text for booleans/null/floats, MathRandom distribution, UUID randomness, longer strings.",
+   design="4/C13")
+CHECKS["C18"] = dict(
+   technique="solver-enumerated definition and event families (CrossHair + z3 close the selector space) run through the real StateLint validator, the real engine and the real dispatch/acknowledge",
+   text=("(A) StateLint.validate returns a list, never raises, for 13 JSON kinds at every member of every role and for symbolic strings at the sinks that look inside strings; (B) for machine skeletons with symbolic targets, types, required-field presence and duplicated names, problems == [] implies that running the real engine never ends in one of the four 'Illegal State Machine' defences nor restarts itself; (C) 14 kinds x 8 shapes of poison events through the real dispatch: no exception escapes, the poison is acknowledged exactly once and healthy executions are unaffected. "
+         "Four genuine defects were repaired (7275df8, 0157199, edc2805, 02205a4); the restart-forever behaviour of unvalidated definitions is a recorded known finding."),
+   note="Trusted: CrossHair/z3, recording dispatchers; concrete definitions run outside the tracer once the selectors are decoded (cross-checked traced on a slice). Outside: definitions larger than the skeleton; the J2119 grammar text is taken as given; Parallel with Branches: [] (accepted, never terminates) is outside C18's text.",
+   design="4/C18")
+CHECKS["C20"] = dict(
+   technique="bounded symbolic exploration (CrossHair + z3) of operation sequences over the real store classes, with in-memory contract models of redis/pottery/the file system and harness-controlled delivery of cache invalidations",
+   text=("Every sequence of up to 4 (quick) / 5 (thorough) store operations - set, nested update, get-mutate-reassign, delete, append, set_ttl, re-open, cached read, delivery of the next pending invalidation - chosen by symbolic selectors over 2 keys, small value pools and one or two store instances is executed on the real JSONStore, SimpleStore, RedisDictStore and RedisListStore and every read is compared with a plain-dict oracle after every step; cached views must be current whenever no invalidation for the key is outstanding and the cache order must equal a reference LRU. "
+         "Unreadable store files, the EXPIRE issued by set_ttl (unbounded symbolic ttl) and by the real start_execution/update_execution_history, and the factories are separate conditions. Two defects were repaired (3f2972f, 417edef); the shared-connection tracking defect is a recorded known finding."),
+   note="Trusted: vf/fake_redis.py (Redis hash/list/DEL/EXISTS/EXPIRE/SCAN/PUBLISH and RESP2 client-tracking-with-redirect contract, pottery views), vf/memfs.py; sequence bodies run concretely once the selectors are decoded. Outside: real Redis/redis-py/pottery, thread scheduling, longer sequences, JSONStore nested updates never re-assigned before a restart, the 'empty value = absent key' convention.",
+   design="4/C20")
+
 NOT_YET = {}
 
 def main():
